@@ -1410,6 +1410,18 @@ func (c *FnCtx) specScopeAt(st *State) *SpecScope {
 	return sc
 }
 
+// checkLoopExit discharges the `exit` clauses of a loop in the state after it, whichever way it
+// was left (guard false, or break).
+func (c *FnCtx) checkLoopExit(st *State, ls *LoopSpec, ord int) {
+	if ls == nil || st == nil {
+		return
+	}
+	for i, cl := range ls.Exits {
+		sc := c.specScopeAt(st)
+		c.obligeNamed(st, "inv", fmt.Sprintf("loop%d/exit#%d", ord, i+1), sc.boolOf(cl.Expr), "after the loop: "+cl.Src, token.NoPos)
+	}
+}
+
 func (c *FnCtx) checkInvariants(st *State, ls *LoopSpec, ord int, phase string) {
 	if ls == nil {
 		return
@@ -1609,7 +1621,9 @@ func (c *FnCtx) execFor(st *State, x *ast.ForStmt) *State {
 	c.iterStates = c.iterStates[:len(c.iterStates)-1]
 	brks := c.breaks[len(c.breaks)-1]
 	c.breaks = c.breaks[:len(c.breaks)-1]
-	return c.merge(append([]*State{exit}, brks...))
+	after := c.merge(append([]*State{exit}, brks...))
+	c.checkLoopExit(after, ls, ord)
+	return after
 }
 
 func (c *FnCtx) execRange(st *State, x *ast.RangeStmt) *State {
@@ -1747,7 +1761,9 @@ func (c *FnCtx) execRange(st *State, x *ast.RangeStmt) *State {
 	c.iterStates = c.iterStates[:len(c.iterStates)-1]
 	brks := c.breaks[len(c.breaks)-1]
 	c.breaks = c.breaks[:len(c.breaks)-1]
-	return c.merge(append([]*State{exit}, brks...))
+	after := c.merge(append([]*State{exit}, brks...))
+	c.checkLoopExit(after, ls, ord)
+	return after
 }
 
 // execRangeUnrolled executes a range loop by unrolling it K times; the unwinding assertion
